@@ -6,6 +6,10 @@ TECH = "contract-based deductive verification: WP/VC generation over the typed G
 
 # id -> (level category, level text, level_note, design_ref)
 CLAIMS = {
+ "C20": ("proof",
+         "The handler dispatch in router.ServeHTTP is a guarded sink: on every path that reaches it the route's authentication requirement is met (for every combination of route flags, lightweight routes included) and every required permission was granted to the identity the permission loop examined (or the session is an administrator), with an inductive invariant over the permission loop. Session.Authenticate is under contract (Authenticated only after a JWT validated, an unexpired cached token, a token that unwrapped or a password that validated; Admin implies Authenticated; locked-out sessions are not authenticated), as are the route builders (Authentication, LightWeight, Permissions store the declared requirements), auth.GetPermission/GetPermissions/findPermission, util.InListInsensitive and util.ErrorResponse. The frame (no intervening call changes the route flags or the session's authentication state) comes from the writer index and typed call graph recomputed on every run.",
+         "Trusted: the user store interface (userIOService) as a record store; oauth.ValidateJWT (C22), auth.TokenUnwrap/tokens.Unwrap (C27/C21), auth.ValidatePassword (C25) are used through their contracts or results; TokenCache entries are trusted to be what was inserted (insertion site asserted). Frame assumptions about leaf library code are listed in the evidence. Sequential semantics. The route table itself needs no per-route obligation: the sink assertions hold for every value of the route flags.",
+         "§7 C20"),
  "C22": ("proof",
          "oauth.ValidateJWT, parseAndValidateJWT (and its keyfunc closure, verified as a function of its own), selectVerificationKey, keyByID, allKeys, findKeyByID, refreshJWKS and resetJWKSCache are under contract: a nil error implies the JWT library verified the signature with a key the keyfunc returned (published JWKS keys only, ECDSA/RSA only), expiry was required and lies in the future, issuer/audience options were set from the configuration, and the jti was looked up in the revocation list on this call (both on a result-cache hit and on a miss). The JWKS cache carries a package invariant (every cached key is a published key) checked at every writer; the result cache carries an insertion-time invariant backed by table obligations (call-site census, entry immutability).",
          "Trusted: golang-jwt/v5 ParseWithClaims (signature verification with the keyfunc's key, enforcement of parser options), JWK parsing, tokens.IsIDBlacklisted (revocation list, C21), caches.Find/Add as a map for OAuthJWTCache (C28). Fail-open when the revocation lookup itself errors is outside the property's quantifier and is visible in the contract (lookupFailed). Sequential semantics.",
